@@ -4,11 +4,15 @@ CHECK = {
                  "(inputs x buffer states x chunk lists x destination capacities x source fragmentation scripts x sink answer scripts x "
                  "request histories of two _n slices off one buffer) against an independently written prefix codec; counts beyond 2^31 are "
                  "covered by structured boundary families through buffers/destinations that are never touched (fake extents over 16 real "
-                 "octets, an untouched 8 GiB anonymous mapping) and drivers that identify octets by address",
+                 "octets, an untouched 8 GiB anonymous mapping) and drivers that identify octets by address (a decoder that asks its source to "
+                 "fill memory outside that mapping -- a bounce buffer -- cannot be followed this way: such cases are ended as not judged, "
+                 "a cap, never a violation)",
     "rule": "odometer, simplest first: encoders over every buffer state (offset<=used<=size<=S) x every n<=rest x 6 kinds x 8 entry "
             "points x {chunk sink, octet sink}; the two _n entry points on every buffer state (size<=4/6, offset>0 and empty included) asked "
             "for n beyond every kind's maximum and beyond the content (256, 2^16, 2^31, and every value within size+1 of 2^32, SSIZE_MAX "
-            "and SIZE_MAX, i.e. every n for which offset+n wraps), followed by a second slice off the same buffer; "
+            "and SIZE_MAX, i.e. every n for which offset+n wraps): admissible answers are a refusal with nothing emitted followed by a "
+            "second slice off the same buffer, or (at-most reading) a frame of exactly the unread octets with the buffer advanced by "
+            "their number; "
             "every chunk list (<=C chunks, rest 0..3, lead/slack 0..1, every active index<=A) incl. empty and "
             "inactive chunks; the four sink encoders (lengths<=3/5) into sinks that answer within the driver contract but not all at "
             "once: every placement of <=2/3 answers from {1, asked-1, 0, EINTR, EAGAIN} (octet sinks: {0, EINTR, EAGAIN}) over the "
@@ -30,11 +34,20 @@ CHECK = {
         "sinks answer within the driver contract of endpoints/core.c (a count <= asked, 0, -EINTR, -EAGAIN; hard sink errors are not "
         "scripted: the statement does not say what an encoder does with them); sources fragment by positive short reads only "
         "(0 / EINTR / EAGAIN answers of a source belong to C17; the varint prefix is read octet-wise through the at-most API)",
-        "_n entry points: n > unread content is only generated where n is also beyond the kind's maximum (then the statement demands "
-        "a refusal with nothing emitted); a refused _n request may or may not advance the buffer, but the read position must stay "
+        "_n entry points: the statement has no sentence for n > unread content; such n are only generated where n is also beyond "
+        "the kind's maximum, and two answers are accepted: (a) a refusal (any negative code) with nothing emitted, or (b) a frame "
+        "of exactly the `rest` unread octets (prefix = rest, payload = those octets, total reported, buffer advanced by rest) when "
+        "rest is a length the kind frames; with rest = 0 an accepting return is judged by the read position only (a frame of no "
+        "octets is outside the statement); an accepting return that is neither is reported (*-refuses-overmax).  A refused _n "
+        "request may or may not advance the buffer, but the read position must stay "
         "inside [old offset, used] (clause *-position): a buffer is only ever advanced, and the next slice carries unread octets",
         "counts >= 2^31 are observed by address: the drivers of those cases do not touch the octets (no 4 GiB allocation); an "
-        "implementation that bounces such transfers through a private buffer is not supported by these cases; the dec-huge family first probes both decoders on a 64 MiB mapping and is not run (run reported non-exhaustive) if they instantiate pages of it; a sink/source of these cases stops serving after 256 calls, and a run in which everything moved until then was the designated payload in order is not judged (an implementation that moves little per call)",
+        "implementation that bounces such transfers through a private buffer is not supported by these cases: the dec-huge family first "
+        "probes both decoders on a 64 MiB mapping and is not run (outcome dechuge-not-run, run reported non-exhaustive, exit 0) if the "
+        "source is asked to fill memory outside the mapping (exact: the first such call decides, any bounce size) or if pages of the "
+        "mapping came into existence; inside a case the same observation ends the case as dechuge-not-judged with a cap; a read that "
+        "names the mapping but not destination+moved is a violation only if no page of the mapping exists afterwards (the decoder "
+        "never moved octets itself); addresses outside the mapping are never logged; a sink/source of these cases stops serving after 256 calls, and a run in which everything moved until then was the designated payload in order is not judged (an implementation that moves little per call)",
         "varint kind: lengths <= SSIZE_MAX-10 have to be accepted, > SSIZE_MAX (or a total that does not fit ssize_t) refused, "
         "the values in between are left open",
         "prefix-object encoders return a status: demanded >= 0 plus a prefix view (anywhere inside the object's prefix storage) "
@@ -55,6 +68,8 @@ CHECK = {
                                      "decmax-enomem", "stream-inorder", "stream2-inorder", "stream-octet",
                                      "refuse-n", "refuse-n-offset", "refuse-n-then-slice",
                                      "encbeh-zero-return", "encbeh-interruption", "encbeh-partial", "encbeh-mixed",
-                                     "encmax-partial-sink", "dechuge-accept", "stream-getbuffer"]},
+                                     "encmax-partial-sink", "stream-getbuffer"]},
+        # dechuge-accept is not required: a decoder that does not deliver in place makes the whole family end as
+        # dechuge-not-run / dechuge-not-judged (with a cap: exhaustive=False), which is not a vacuity failure
     }],
 }
